@@ -148,7 +148,7 @@ func (m *Machine) runThread(t *thread, body func()) {
 				m.finish(pathResult{abort: &p})
 				return
 			case targetPanic:
-				m.finish(pathResult{panicked: true, panicVal: toString(p.v), panicThread: t.id})
+				m.finish(pathResult{panicked: true, panicVal: toString(p.v) + m.lastPanicStack, panicThread: t.id})
 				return
 			default:
 				m.finish(pathResult{abort: &engineAbort{abortUnsupported, fmt.Sprintf("engine fault: %v", r)}})
